@@ -262,16 +262,45 @@ pub fn gen_panic_variant(rng: &mut Rng, variant: u64) -> Program {
             vec![Step::Panic]
         }
     };
+    // future bodies may be woken again during the very poll in which they panic: by a second event they
+    // also waited for (select), or by waking themselves
+    let mut env0: Vec<Op> = vec![];
+    let mut fy = |g: &mut Gen, env0: &mut Vec<Op>| -> Vec<Step> {
+        match g.rng.below(4) {
+            0 => {
+                let g1 = g.n_gates;
+                let g2 = g.n_gates + 1;
+                g.n_gates += 2;
+                env0.push({ let __k = OpKind::Yield(1); g.op(__k) });
+                env0.push({ let __k = OpKind::OpenGate { g: g1 }; g.op(__k) });
+                let n = g.rng.range(0, 2) as u8;
+                if n > 0 {
+                    env0.push({ let __k = OpKind::Yield(n); g.op(__k) });
+                }
+                env0.push({ let __k = if g.rng.permille(500) { OpKind::OpenGate { g: g2 } } else { OpKind::Poke { g: g2 } }; g.op(__k) });
+                vec![Step::AwaitAny(g1, g2), Step::Yield(g.rng.range(1, 3) as u8), Step::Panic]
+            }
+            1 => vec![Step::WakeSelf, Step::Yield(1), Step::Panic],
+            _ => {
+                let mut b = vec![];
+                if g.rng.permille(500) {
+                    let gate = g.gate();
+                    b.push(Step::AwaitGate(gate));
+                }
+                let n = g.rng.range(0, 2) as u8;
+                if n > 0 {
+                    b.push(Step::Yield(n));
+                }
+                b.push(Step::Panic);
+                b
+            }
+        }
+    };
     match variant % 10 {
         0 => t0.push({ let __k = OpKind::Desync { o: p_obj, body: y(&mut g) }; g.op(__k) }),
         1 => {
             let h = g.handle();
-            let mut body = vec![];
-            if g.rng.permille(500) {
-                let gate = g.gate();
-                body.push(Step::AwaitGate(gate));
-            }
-            body.extend(y(&mut g));
+            let body = fy(&mut g, &mut env0);
             t0.push({ let __k = OpKind::FutureDesync { o: p_obj, body, h }; g.op(__k) });
             t0.push({ let __k = OpKind::Detach { h }; g.op(__k) });
         }
@@ -305,7 +334,8 @@ pub fn gen_panic_variant(rng: &mut Rng, variant: u64) -> Program {
             add_blockers(&mut g, &mut phase0_threads, &mut t0);
             t0.push({ let __k = OpKind::Yield(3); g.op(__k) });
             let h = g.handle();
-            t0.push({ let __k = OpKind::FutureDesync { o: p_obj, body: y(&mut g), h }; g.op(__k) });
+            let body = fy(&mut g, &mut env0);
+            t0.push({ let __k = OpKind::FutureDesync { o: p_obj, body, h }; g.op(__k) });
             t0.push({ let __k = OpKind::Await { h }; g.op(__k) });
         }
         8 => {
@@ -322,7 +352,8 @@ pub fn gen_panic_variant(rng: &mut Rng, variant: u64) -> Program {
         _ => {
             // awaited future_desync with a free pool: panic on the pool thread, the awaiting task sees cancellation
             let h = g.handle();
-            t0.push({ let __k = OpKind::FutureDesync { o: p_obj, body: y(&mut g), h }; g.op(__k) });
+            let body = fy(&mut g, &mut env0);
+            t0.push({ let __k = OpKind::FutureDesync { o: p_obj, body, h }; g.op(__k) });
             t0.push({ let __k = OpKind::Await { h }; g.op(__k) });
         }
     }
@@ -380,7 +411,7 @@ pub fn gen_panic_variant(rng: &mut Rng, variant: u64) -> Program {
     }
     let mut prog = base_program(pool_max, n_objs);
     prog.phases = vec![
-        Phase { ctl: vec![], threads: phase0_threads, env_gates: vec![], env_streams: vec![] },
+        Phase { ctl: vec![], threads: phase0_threads, env_gates: env0, env_streams: vec![] },
         Phase { ctl: vec![], threads: phase1_threads, env_gates: vec![], env_streams: vec![] },
         Phase { ctl: vec![], threads: vec![t_c], env_gates: vec![], env_streams: vec![] },
     ];
